@@ -601,3 +601,8 @@ pub fn steep_nonsym(rng: &mut Rng, n: usize, mc: usize, scale: f64, with_pow: bo
     let label = format!("steep nonsymmetric n={} cones={} scale={} pow={}", n, mc, scale, with_pow);
     Prob { P: CscMatrix::zeros((nv, nv)), q, A: dense_to_csc(&dense, rows, nv), b, cones, label, intent: 3 }
 }
+
+/// dense rows -> CSC (public wrapper)
+pub fn dense_rows_to_csc(rows: &[Vec<f64>], m: usize, n: usize) -> CscMatrix<f64> {
+    dense_to_csc(rows, m, n)
+}
